@@ -312,7 +312,7 @@ def h_run(spec, tag=""):
             spec.H_LOOP = c.h0          # the heap when the run loop is entered (after all pre-flight checks)
             return [lambda r: r > c.entry["nalloc"]]       # an iteration changes nothing but objects created inside the loop
         spec.H_LOOP = None
-        spec.loop(CLI, "_run", run_loop_ord, LoopSpec(loop_inv(spec), modifies_heap=True, frame_except=run_frame))
+        spec.loop(CLI, "_run", run_loop_ord, LoopSpec(loop_inv(spec), modifies_heap=True, frame_except=run_frame, ghost=("executed", "emit_end")))
         out = E.execute(I, E.hfunc(CLI, "_run"), [spec.ARGS])
         g = st.ghost
         if out[0] != "return":
